@@ -9,6 +9,8 @@
 //!   tzdb_id  <hex name>                        provider.check_identifier
 //!   tzdb_ord <zone> <zone2> <t>                the same query before/after other queries and on a fresh provider
 //!   tzdb_offns <zone> <seconds> <sub ns>       the offset at an instant with a sub-second part (floor to its second)
+//!   tzdb_case <hex name> <t>                   a re-cased spelling of a zone name on a cold provider and on one that
+//!                                              has already served the canonical spelling: the same answer (`ok same`)
 //!   tzdb_hist <seed> <n>                       one provider answers queries for n distinct zones, then for each again:
 //!                                              every answer must be the one a fresh provider gives (`ok same`)
 use crate::common::*;
@@ -169,6 +171,16 @@ pub fn generate(rng: &mut Rng, thorough: bool) -> Vec<String> {
         let other = rng.pick(&zones);
         v.push(format!("tzdb_ord {name} {other} {}", rng.pick(&instants)));
     }
+    // re-cased identifiers, cold vs warm
+    for _ in 0..(if thorough { 200 } else { 30 }) {
+        let name = rng.pick(&zones);
+        let mangled: String = match rng.below(3) {
+            0 => name.to_ascii_lowercase(),
+            1 => name.to_ascii_uppercase(),
+            _ => name.chars().map(|c| if rng.chance(1, 2) { c.to_ascii_uppercase() } else { c.to_ascii_lowercase() }).collect(),
+        };
+        v.push(format!("tzdb_case {} {} {}", super::c03::hex(name.as_bytes()), super::c03::hex(mangled.as_bytes()), rng.range(-2_000_000_000, 4_000_000_000)));
+    }
     // long histories over many distinct zones on one provider
     for _ in 0..(if thorough { 12 } else { 3 }) {
         v.push(format!("tzdb_hist {} {}", rng.next() % 1_000_000, *rng.pick(&[40u32, 70, 100, 130])));
@@ -219,6 +231,22 @@ pub fn eval(t: &[&str]) -> Option<String> {
             let p = FsTzdbProvider::default();
             let r = p.get_named_tz_offset_nanoseconds(t[1], i(t[2]) * 1_000_000_000 + i(t[3]));
             Some(render(r, |o| o.offset.to_string()))
+        }
+        "tzdb_case" => {
+            let name = String::from_utf8_lossy(&super::c03::unhex(t[1])).to_string();
+            let other = String::from_utf8_lossy(&super::c03::unhex(t[2])).to_string();
+            let ns = i(t[3]) * 1_000_000_000;
+            let show = |r: Result<temporal_rs::provider::TimeZoneOffset, temporal_rs::TemporalError>| match r { Ok(o) => o.offset.to_string(), Err(e) => format!("err {}", err_kind(&e)) };
+            let cold = show(FsTzdbProvider::default().get_named_tz_offset_nanoseconds(&other, ns));
+            let warm_p = FsTzdbProvider::default();
+            let _ = warm_p.get_named_tz_offset_nanoseconds(&name, ns);
+            let warm = show(warm_p.get_named_tz_offset_nanoseconds(&other, ns));
+            // and the other order: the re-cased spelling first must not change what the canonical one gets
+            let p2 = FsTzdbProvider::default();
+            let _ = p2.get_named_tz_offset_nanoseconds(&other, ns);
+            let canon_after = show(p2.get_named_tz_offset_nanoseconds(&name, ns));
+            let canon_cold = show(FsTzdbProvider::default().get_named_tz_offset_nanoseconds(&name, ns));
+            Some(if cold == warm && canon_after == canon_cold { "ok same".into() } else { format!("ok differ cold {cold} warm {warm} | canonical cold {canon_cold} after {canon_after}") })
         }
         "tzdb_hist" => {
             let mut rng = Rng::new(i(t[1]) as u64);
